@@ -5,7 +5,7 @@ A fragment is an id; its text is recorder(fid, kind).  The first fragment execut
 *declared* to consume; every fragment then appends its id, so execution order is visible:
 
   E <var>=<value>        exported variables from the fixed universe V0..V4, TE0, TE1 (strong use only)
-  A<i> { ... }           per positional argument: listing + full content of the files in it (1 level of dirs)
+  A<i> { ... }           per positional argument: listing + full content of the files in it (recursive, 4 levels of dirs)
   T <tool> { ... }       content of toolid.txt of every declared strong tool t0,t1 (via BOB_TOOL_PATHS)
   H <host fingerprint>   only in fragments of kind "fp" (emulated host dependency)
   F <fid>                one line per executed fragment
@@ -40,24 +40,23 @@ if [ -z "${__V-}" ]; then
   for __n in V0 V1 V2 V3 V4 TE0 TE1; do
     if [ -n "${!__n+x}" ]; then echo "E $__n=${!__n}" >> %(out)s; fi
   done
+  __rec() {
+    local __f __l
+    for __f in "$1"/*; do
+      if [ -f "$__f" ]; then
+        echo "$2file ${__f##*/}" >> %(out)s
+        while IFS= read -r __l || [ -n "$__l" ]; do echo "$2 $__l" >> %(out)s; done < "$__f"
+      elif [ -d "$__f" ] && [ ${#2} -lt 5 ]; then
+        echo "$2dir ${__f##*/}" >> %(out)s
+        __rec "$__f" "$2 "
+      fi
+    done
+  }
   __i=0
   for __a in "$@"; do
     __i=$((__i+1))
     echo "A$__i {" >> %(out)s
-    for __f in "$__a"/*; do
-      if [ -f "$__f" ]; then
-        echo " file ${__f##*/}" >> %(out)s
-        while IFS= read -r __l || [ -n "$__l" ]; do echo "  $__l" >> %(out)s; done < "$__f"
-      elif [ -d "$__f" ]; then
-        echo " dir ${__f##*/}" >> %(out)s
-        for __g in "$__f"/*; do
-          if [ -f "$__g" ]; then
-            echo "  file ${__g##*/}" >> %(out)s
-            while IFS= read -r __l || [ -n "$__l" ]; do echo "   $__l" >> %(out)s; done < "$__g"
-          fi
-        done
-      fi
-    done
+    __rec "$__a" " "
     echo "}" >> %(out)s
   done
   __oifs=$IFS; IFS=:
